@@ -358,9 +358,13 @@ func (s *Server) handle(w http.ResponseWriter, r *http.Request) {
 	key := fmt.Sprintf("%s %s %d", r.Method, path, page)
 	s.occ[key]++
 	id := ReqID{Method: r.Method, Path: path, Page: page, Occ: s.occ[key]}
-	s.log = append(s.log, id)
+	faulted := s.fault != nil && s.fault.Method == id.Method && s.fault.Path == id.Path && s.fault.Page == id.Page
+	if !(faulted && s.faultMode == faultDrop && s.faultHit > 0) {
+		// (transport-level re-sends of a dropped request are not counted as requests of the importer)
+		s.log = append(s.log, id)
+	}
 
-	if s.fault != nil && s.fault.Method == id.Method && s.fault.Path == id.Path && s.fault.Page == id.Page {
+	if faulted {
 		switch s.faultMode {
 		case fault403:
 			if s.fault.Occ == id.Occ {
